@@ -29,6 +29,8 @@ INVARIANT HierarchyInv
 INVARIANT PaginationInv
 INVARIANT PagLinksInv
 INVARIANT TopInv
+INVARIANT PageLinksInv
+INVARIANT ScansInv
 PROPERTY Monotone
 VIEW View
 CHECK_DEADLOCK FALSE
